@@ -149,11 +149,25 @@ Definition canvas_one (st : state) (cv : value) (tensors : list value) : nat * b
        match l with [] => true | x :: l' => negb (existsb (veqb x) l') && go l' end) stamps in
   (length acts, arity_ok, distinct).
 
+(* updates executed while a canvas is open (between a createCanvas and the next displayCanvas, chronologically): in a cascade
+   only the Einsums that carry a spacetime report activities.  `evs` is chronological. *)
+Fixpoint displayed_updates (evs : list (string * list value)) (open : bool) (acc : nat) : nat :=
+  match evs with
+  | [] => acc
+  | (n, _) :: r =>
+      if String.eqb n "createCanvas" then displayed_updates r true acc
+      else if String.eqb n "displayCanvas" then displayed_updates r false acc
+      else if String.eqb n "update" then displayed_updates r open (if open then S acc else acc)
+      else displayed_updates r open acc
+  end.
+
+(* activities / all executed updates , arities ok , stamps distinct per canvas , updates executed under an open canvas , canvases *)
 Definition canvas_report (st : state) : string :=
   let cvs := filter (fun ev => String.eqb (fst ev) "createCanvas") (log st) in
   let rs := map (fun ev => match snd ev with c :: ts => canvas_one st c ts | [] => (O, false, false) end) cvs in
   show_nat (fold_left (fun acc r => Nat.add acc (fst (fst r))) rs O) ++ "/" ++ show_nat (count_log st "update") ++ "," ++
-  show_bool (forallb (fun r => snd (fst r)) rs) ++ "," ++ show_bool (forallb (fun r => snd r) rs).
+  show_bool (forallb (fun r => snd (fst r)) rs) ++ "," ++ show_bool (forallb (fun r => snd r) rs) ++ "," ++
+  show_nat (displayed_updates (rev (log st)) false O) ++ "," ++ show_nat (length cvs).
 
 Record rcase := mkCase {
   c_prog : program;
